@@ -2,15 +2,15 @@
 // All spec text; nothing here is executable.
 
 /// per-step magnitude bound: |connection cost| + |word cost (i16)|
-pub open spec fn step_bound<C: ConnectorCost>(c: &C) -> int { c.spec_cost_bound() + 32768 }
+pub open spec fn step_bound<C: CostModel>(c: &C) -> int { c.spec_cost_bound() + 32768 }
 
 /// accumulated cost of reaching `n` through predecessor `p` *before* adding n's word cost
-pub open spec fn pre_cost<C: ConnectorCost>(p: Node, left_id: u16, c: &C) -> int {
+pub open spec fn pre_cost<C: CostModel>(p: Node, left_id: u16, c: &C) -> int {
     p.min_cost as int + c.spec_cost(p.right_id, left_id)
 }
 
 /// the word cost with which `n` was inserted (stored cost minus the chosen predecessor's part)
-pub open spec fn node_wc<C: ConnectorCost>(ends: Seq<Vec<Node>>, n: Node, c: &C) -> int {
+pub open spec fn node_wc<C: CostModel>(ends: Seq<Vec<Node>>, n: Node, c: &C) -> int {
     n.min_cost as int - pre_cost(ends[n.start_node as int][n.min_idx as int], n.left_id, c)
 }
 
@@ -20,7 +20,7 @@ pub open spec fn is_bos(n: Node) -> bool {
 }
 
 /// structural + Viterbi + range facts of one node stored in ends[e], e >= 1
-pub open spec fn node_ok<C: ConnectorCost>(ends: Seq<Vec<Node>>, e: int, n: Node, c: &C) -> bool {
+pub open spec fn node_ok<C: CostModel>(ends: Seq<Vec<Node>>, e: int, n: Node, c: &C) -> bool {
     let sn = n.start_node as int;
     &&& n.start_node <= n.start_word < e
     &&& 0 < ends[sn].len()
@@ -37,11 +37,11 @@ pub open spec fn node_ok<C: ConnectorCost>(ends: Seq<Vec<Node>>, e: int, n: Node
 
 impl Lattice {
     /// the (len_char+1)*K <= i32::MAX form of "accumulated costs stay within 32-bit range"
-    pub open spec fn cost_room<C: ConnectorCost>(len_char: int, c: &C) -> bool {
+    pub open spec fn cost_room<C: CostModel>(len_char: int, c: &C) -> bool {
         (len_char + 1) * step_bound(c) <= i32::MAX as int
     }
 
-    pub open spec fn wf<C: ConnectorCost>(&self, c: &C) -> bool {
+    pub open spec fn wf<C: CostModel>(&self, c: &C) -> bool {
         &&& c.conn_wf()
         &&& self.ends.len() > self.len_char
         &&& Self::cost_room(self.len_char as int, c)
@@ -53,7 +53,7 @@ impl Lattice {
     }
 
     /// EOS is set, hangs off a non-empty boundary and minimises over it with left id 0
-    pub open spec fn eos_ok<C: ConnectorCost>(&self, c: &C) -> bool {
+    pub open spec fn eos_ok<C: CostModel>(&self, c: &C) -> bool {
         &&& self.eos.is_some()
         &&& {
             let n = self.eos.unwrap();
